@@ -26,6 +26,16 @@
   | GenFuncsGovMisc   | NewVoteOptions, NewGovProposal, IsVoter (x2), GetVoter, SumVotingPowers, powerOrderVoteOptions.Less, isMajor, updateMajorOption, UpdateMajorOption |
   | GenFuncsGov       | voteOption.{DoVote,CancelVote,Votes}, GovProposal.{cancelVote,doVote,DoVote} |
   | GenFuncsGovPunish | GovProposal.DoPunish |
+  | round 3 (controllers) | ledger fields as `GLedger`, interface calls as oracles |
+  | GenFuncsCtrlBase  | `ledOf` (the `GLedger` of a model ledger; `GLedger.set/del` = `Led.set/del`), `govCtrlOf`, `acctCtrlOf`, `StakeRel`, `ctxOf`, the items' `Key` methods |
+  | GenFuncsCtrlGovV  | GovCtrler.ValidateTrx = validateProposal / validateVoting; GovParams getters |
+  | GenFuncsCtrlStakeV | StakeCtrler.ValidateTrx = validateStaking / validateUnstaking / validateWithdraw; IsValidator, FindStake, getters |
+  | GenFuncsCtrlAcct  | AcctCtrler.{findAccount,setAccountCommittable,FindOrNewAccount,Reward,transfer,setDoc,ValidateTrx,ExecuteTrx,EndBlock} |
+  | GenFuncsCtrlStakeX | StakeCtrler.{exeStaking,exeWithdraw,doPunish,ExecuteTrx,Validators}, NewReward |
+  | GenFuncsCtrlUnstake | StakeCtrler.exeUnstaking = execUnstaking |
+  | GenFuncsCtrlGovX  | GovCtrler.{execProposing,execVoting,ExecuteTrx} |
+  | GenFuncsCtrlGovBlk | GovCtrler.{doPunish,freezeProposals} |
+  | GenFuncsCtrlStakeBlk | StakeCtrler.{doRewardTo,unfreezingStakes} |
 -/
 import RigoProofs.GenFuncsSimple
 import RigoProofs.GenFuncsLoops
@@ -40,3 +50,12 @@ import RigoProofs.GenFuncsLimiter2
 import RigoProofs.GenFuncsGovMisc
 import RigoProofs.GenFuncsGov
 import RigoProofs.GenFuncsGovPunish
+import RigoProofs.GenFuncsCtrlBase
+import RigoProofs.GenFuncsCtrlGovV
+import RigoProofs.GenFuncsCtrlStakeV
+import RigoProofs.GenFuncsCtrlAcct
+import RigoProofs.GenFuncsCtrlStakeX
+import RigoProofs.GenFuncsCtrlUnstake
+import RigoProofs.GenFuncsCtrlGovX
+import RigoProofs.GenFuncsCtrlGovBlk
+import RigoProofs.GenFuncsCtrlStakeBlk
